@@ -14,9 +14,9 @@ CONSTANTS
   MaxCookie = 4
   InqBound = 1
   Kinds = {"CreateObject", "DestroyObject", "CreateService", "CreateService2", "DestroyService", "QueryServiceVersion", "QueryServiceInfo", "Sync"}
-  Faults = {"ends", "dropped", "sdb", "sdi"}
+  Faults = {"ends", "dropped", "sdc", "sdb", "sdi"}
   WrongKinds = {}
-  MsgBudget = 4
+  MsgBudget = 3
   InitSerial = 0
   Senders = {0, 1, 2}
   PoolKinds = {"live", "dead", "never"}
